@@ -3,6 +3,7 @@
 package keystore
 
 import (
+	"runtime"
 	"context"
 	"crypto/sha256"
 	"errors"
@@ -514,7 +515,11 @@ func runKS(c *vu.Case) {
 				for k := 0; k < 2; k++ {
 					go func() { _ = w.ks.Close(); closes <- struct{}{} }()
 				}
-				synctest.Wait()
+				// (no synctest.Wait here: a Close that waits for another one inside a sync.Once is parked on a mutex,
+				// which a bubble does not count as blocked; the callers just get a chance to start)
+				for k := 0; k < 20; k++ {
+					runtime.Gosched()
+				}
 			}
 			w.j.mu.Unlock()
 			nk, err := w.ks.Put(ctx, ksParse(e["keys"])...)
